@@ -341,6 +341,27 @@ fn check(c: &CliCase) -> CaseReport {
             }
         }
     }
+    // the printed text is a function of the query and the options, not of the locale variables of the environment
+    if q.len() % 5 == 0 {
+        if let Ok((want, _, _)) = expected_stdout(cli_db(), q, false) {
+            const LOCALES: [(&str, &str); 5] = [("LC_ALL", "en_US.ISO-8859-1"), ("LC_ALL", "C"), ("LANG", "de_DE.ISO-8859-15@euro"), ("LC_CTYPE", "ja_JP.eucJP"), ("LC_ALL", "POSIX")];
+            let (k, v) = LOCALES[(q.len() / 5) % LOCALES.len()];
+            let mut cmd = Command::new(&e.any);
+            cmd.env("XDG_DATA_HOME", &e.xdg).env("TERM", "dumb").env("NO_COLOR", "1").env_remove("RUST_LOG").env_remove("RUST_BACKTRACE");
+            cmd.env_remove("LC_ALL").env_remove("LC_CTYPE").env_remove("LANG").env(k, v);
+            cmd.arg("--").arg(q);
+            watch_begin(q);
+            let outp = cmd.output();
+            watch_end();
+            if let Ok(outp) = outp {
+                let got = String::from_utf8_lossy(&outp.stdout).to_string();
+                if !outp.status.success() || got != want {
+                    return CaseReport::fail(q, "locale:stdout-differs", json!({"query": q, "environment": format!("{}={}", k, v), "stdout": got, "expected": want}));
+                }
+                all_classes.push("under-another-locale");
+            }
+        }
+    }
     // the query given as several arguments (`any 1 + 2`): the program joins them with single blanks, so a
     // query whose words are separated by exactly one blank must print the same either way
     {
